@@ -3,6 +3,7 @@ import ZarrsModel.Model.PackBits
 import ZarrsModel.Model.Lossy
 import ZarrsModel.Model.Vlen
 import ZarrsModel.Driver.C01
+import ZarrsModel.Driver.C03Fso
 /- driver handler for C03: predicted encoding of modelled chains, round trip and declared size always required -/
 namespace Zarrs.DriverC03
 open Zarrs Zarrs.Proto Zarrs.Codec
@@ -154,6 +155,10 @@ def handleVdec (l : Line) : Option (List String) := do
 
 def handle (l : Line) : Option (List String) := do
   if l.verbs[1]? == some "vdec" then return (← handleVdec l)
+  if l.verbs[1]? == some "fsorep" then return (← DriverC03Fso.handleRep l)
+  -- `fixedscaleoffset` predicted by its model (Model/FixedScaleOffset.lean): also the lines the codec refuses
+  if let some spec := l.get "lossy" then
+    if spec.startsWith "fsox" then return (← DriverC03Fso.handleCodec l spec)
   let shape ← l.nl "shape"
   let model := (← l.get "model").splitOn "|"
   let modelled := (l.get "modelled") == some "1"
